@@ -15,8 +15,8 @@ use poulpy_core::{
     },
 };
 use poulpy_hal::{
-    api::{ScratchOwnedAlloc, ScratchOwnedBorrow},
-    layouts::{Module, NoiseInfos, ScalarZnx, ScratchOwned, ToOwnedDeep, VecZnx, WriterTo, ZnxViewMut},
+    api::{ScratchOwnedBorrow},
+    layouts::{Module, NoiseInfos, ScalarZnx, ToOwnedDeep, VecZnx, WriterTo, ZnxViewMut},
     source::Source,
 };
 use pzv_be::FullBackend;
@@ -145,7 +145,7 @@ pub fn build<B: FullBackend>(m: &Module<B>, p: &EncP, compressed: bool, via_serd
     let (ri, ro) = (Rank(p.rank_in as u32), Rank(p.rank_out as u32));
     let (dnum, dsize) = (Dnum(p.dnum as u32), Dsize(p.dsize as u32));
     let ni = p.noise_infos();
-    let mut scratch = ScratchOwned::<B>::alloc(1 << 22);
+    let mut scratch = pzv_be::dirty_scratch::<B>(1 << 22);
     let mut xe = Source::new(seed32(p.seed_xe, 0xE));
     let mut xa = Source::new(seed32(p.seed_xa, 0xA));
     let seed_xa = seed32(p.seed_xa, 0xA);
